@@ -1030,6 +1030,12 @@ class NetRun:
         except (TypeError, ValueError):
             self.trace.append(("fw-ignored",))
             return
+        if not (0 <= ftype_i <= 0xFFFF and 0 <= fver_i <= 0xFFFF):
+            # type / version outside the 16-bit fields of the stream messages: there is no way to offer such a
+            # firmware, the call (if it returns at all) must not start or disturb any session
+            self.probe("update_fw_type_or_version_out_of_range")
+            self.trace.append(("fw-out-of-range", ftype_i, fver_i))
+            return
         if image == b"":
             # a HEX file without data is not firmware: the call must not start (or disturb) any session
             self.probe("update_fw_with_empty_hex")
